@@ -1,21 +1,36 @@
 #!/usr/bin/env python3
 """Run Lua source in the extracted LuaCore model (there is no Lua interpreter in the sandbox).
 
-    run_lua(sources, fuel=...) -> list of dict(final, msg, trace)
+    run_lua(sources, fuel=400000, dialect="5.3", timeout=None) -> list of dict(final, msg, trace)
         final in {"done", "error", "fuel", "unsupported", "loaderr", "crash"}; msg is the error / reason
         text ("" for done/fuel); trace is the list of printed lines (bytes decoded as latin-1 so
-        that every byte survives).
-    lua_wf(sources) -> list of None | reason      (None = LuaJIT would load the chunk)
+        that every byte survives).  Never raises for a case the driver could not finish (time-out,
+        stack overflow, abort): that case gets final="crash" (msg says why) and the others still run.
+        timeout: seconds allowed PER CASE (default 60).
+    lua_wf(sources, dialect="5.3", timeout=None) -> list of None | reason
+        None = the interpreter of that dialect would load the chunk.  A reason starting with
+        "line N: unsupported:" means LuaCore does not model that syntax (not that Lua rejects it).
+    split_preamble(text) -> (preamble, body)
+        checks that the emitted text starts with the exact bytes of /repo/sylt-compiler/src/preamble.lua.
 
-Command line:  lua_run.py [--wf] [--fuel N] FILE.lua ...
+dialect: "5.3" = PUC-Rio Lua 5.3 with LUA_COMPAT_5_2, what the repo's CI runs: the REFERENCE semantics;
+         "jit" = LuaJIT 2.x without 5.2 compatibility (Lua 5.1 rules + goto): information only.
+
+Command line:  lua_run.py [--wf] [--jit] [--fuel N] [--timeout S] FILE.lua ...
 """
 import os
+import select
+import subprocess
 import sys
+import time
 
 sys.path.insert(0, os.path.dirname(os.path.abspath(__file__)))
 import vlib
 
 DEFAULT_FUEL = 400000
+DEFAULT_TIMEOUT = 60.0
+DIALECTS = {"5.3": "53", "53": "53", "lua53": "53", "jit": "jit", "luajit": "jit", "5.1": "jit"}
+PREAMBLE_PATH = os.path.join(vlib.REPO, "sylt-compiler", "src", "preamble.lua")
 _EXE = None
 
 
@@ -34,11 +49,69 @@ def build():
     return exe
 
 
-def _model(cases):
-    exe = build()
+def _suffix(dialect):
+    try:
+        return DIALECTS[str(dialect).lower()]
+    except KeyError:
+        raise ValueError("unknown dialect %r (use \"5.3\" or \"jit\")" % (dialect,))
+
+
+def _run_shard(exe, cases, timeout):
+    """One driver process per run of cases; a case that produces no line within `timeout` seconds (or
+    kills the process) is reported as 'CRASH <why>' and the run resumes with the next case."""
+    out = []
+    start = 0
     # the interpreter recurses deeply (fuel bounds the depth): lift the stack limit
-    wrapper = ["-c", 'ulimit -s unlimited 2>/dev/null || ulimit -s 4000000 2>/dev/null; OCAMLRUNPARAM=s=4M,o=400 exec "$0" "$@"', exe]
-    return vlib.model("/bin/sh", wrapper, cases)
+    shell = 'ulimit -s unlimited 2>/dev/null || ulimit -s 4000000 2>/dev/null; OCAMLRUNPARAM=s=4M,o=400 exec "$0" "$@"'
+    while start < len(cases):
+        path = vlib.tmpfile(".cases")
+        with open(path, "w") as f:
+            f.write("\n".join(cases[start:]) + "\n")
+        p = subprocess.Popen(["/bin/sh", "-c", shell, exe, path], stdout=subprocess.PIPE, stderr=subprocess.DEVNULL)
+        buf = b""
+        got = 0
+        why = None
+        deadline = time.time() + timeout
+        try:
+            while start + got < len(cases):
+                nl = buf.find(b"\n")
+                if nl >= 0:
+                    out.append(buf[:nl].decode("ascii", "replace"))
+                    buf = buf[nl + 1:]
+                    got += 1
+                    deadline = time.time() + timeout
+                    continue
+                left = deadline - time.time()
+                if left <= 0:
+                    why = "timeout after %gs" % timeout
+                    break
+                r, _, _ = select.select([p.stdout], [], [], left)
+                if not r:
+                    why = "timeout after %gs" % timeout
+                    break
+                chunk = os.read(p.stdout.fileno(), 1 << 16)
+                if not chunk:
+                    p.wait()
+                    why = "driver exited with status %s" % p.returncode
+                    break
+                buf += chunk
+        finally:
+            if p.poll() is None:
+                p.kill()
+            p.wait()
+            p.stdout.close()
+            os.remove(path)
+        start += got
+        if start < len(cases):
+            out.append("CRASH " + (why or "no output"))
+            start += 1
+    return out
+
+
+def _model(cases, timeout):
+    exe = build()
+    t = DEFAULT_TIMEOUT if timeout is None else float(timeout)
+    return vlib.sharded(lambda cs: _run_shard(exe, cs, t), cases)
 
 
 def _txt(h):
@@ -49,10 +122,11 @@ def _src_bytes(s):
     return s if isinstance(s, bytes) else s.encode("utf-8")
 
 
-def run_lua(sources, fuel=DEFAULT_FUEL):
-    cases = ["run\t%d\t%s" % (fuel, vlib.hexs(_src_bytes(s))) for s in sources]
+def run_lua(sources, fuel=DEFAULT_FUEL, dialect="5.3", timeout=None):
+    mode = "run" + _suffix(dialect)
+    cases = ["%s\t%d\t%s" % (mode, fuel, vlib.hexs(_src_bytes(s))) for s in sources]
     out = []
-    for line in _model(cases):
+    for line in _model(cases, timeout):
         f = line.split(" ")
         if f[0] != "RUN" or len(f) < 3:
             out.append({"final": "crash", "msg": line, "trace": []})
@@ -66,10 +140,11 @@ def run_lua(sources, fuel=DEFAULT_FUEL):
     return out
 
 
-def lua_wf(sources):
-    cases = ["wf\t0\t%s" % vlib.hexs(_src_bytes(s)) for s in sources]
+def lua_wf(sources, dialect="5.3", timeout=None):
+    mode = "wf" + _suffix(dialect)
+    cases = ["%s\t0\t%s" % (mode, vlib.hexs(_src_bytes(s))) for s in sources]
     out = []
-    for line in _model(cases):
+    for line in _model(cases, timeout):
         if line == "WF ok":
             out.append(None)
         elif line.startswith("WF bad:"):
@@ -79,27 +154,49 @@ def lua_wf(sources):
     return out
 
 
+def split_preamble(text):
+    """(preamble, body) of an emitted chunk; ValueError unless it starts with the exact bytes of the repo's
+    preamble.lua (lua.rs writes include_str!("preamble.lua") first).  str in -> str out, bytes in -> bytes out."""
+    pre = open(PREAMBLE_PATH, "rb").read()
+    if isinstance(text, bytes):
+        if not text.startswith(pre):
+            raise ValueError("emitted text does not start with the bytes of " + PREAMBLE_PATH)
+        return text[:len(pre)], text[len(pre):]
+    pre_s = pre.decode("utf-8")
+    if not text.startswith(pre_s):
+        raise ValueError("emitted text does not start with the text of " + PREAMBLE_PATH)
+    return text[:len(pre_s)], text[len(pre_s):]
+
+
 def main(argv):
     fuel = DEFAULT_FUEL
     wf = False
+    dialect = "5.3"
+    timeout = None
     files = []
     i = 0
     while i < len(argv):
         if argv[i] == "--fuel":
             fuel = int(argv[i + 1])
             i += 2
+        elif argv[i] == "--timeout":
+            timeout = float(argv[i + 1])
+            i += 2
         elif argv[i] == "--wf":
             wf = True
+            i += 1
+        elif argv[i] == "--jit":
+            dialect = "jit"
             i += 1
         else:
             files.append(argv[i])
             i += 1
     srcs = [open(f, "rb").read() for f in files]
     if wf:
-        for f, r in zip(files, lua_wf(srcs)):
+        for f, r in zip(files, lua_wf(srcs, dialect, timeout)):
             print("%s: %s" % (f, "ok" if r is None else "BAD: " + r))
     else:
-        for f, r in zip(files, run_lua(srcs, fuel)):
+        for f, r in zip(files, run_lua(srcs, fuel, dialect, timeout)):
             print("== %s: %s %s" % (f, r["final"], r["msg"]))
             for l in r["trace"]:
                 print(l)
